@@ -48,4 +48,21 @@ PROPS = {
         "explanation": "Length 6 over all 24 shapes (191 M sequences) does not fit the time budget of the line protocol; it is enumerated over "
                        "a 12-shape sub-alphabet. The theorem c09 covers every length.",
     },
+    "C06": {
+        "families": [
+            fam("c06.result", 1500, 25000),
+            fam("c06.dnsbasic", 1500, 25000),
+            fam("c06.engine", 1000, 15000),
+        ],
+        "defects": ["D5"],
+        "rule": "multisets (size 0-6 rules, 0-3 source rules, with badfilter twins) over a pool realising all combinations of {exception, "
+                "$important, $domain-specific, $document/$urlblock/$genericblock/$elemhide, $dnsrewrite, $badfilter, $stealth}, each in "
+                "1-3 permutations: c06.result/c06.dnsbasic = class of NewMatchingResult(...).GetBasicResult() / GetDNSBasicRule (go vs model "
+                "vs reference class), c06.pick/c06.dnspick = which rule is returned (go vs model), assert c06.*perm = all permutations "
+                "agree; c06.engine = the same through Engine.MatchRequest / DNSEngine.MatchRequest over 1-3 rule lists (rules = what "
+                "MatchAll returned); thorough adds all singletons and all (rule, source rule) / (rule, rule) pairs of the pool; "
+                "distinct by hash of the op input; non-trivial when the answer is not none",
+        "explanation": "$replace/$cookie/$csp cannot be set from rule text on this tree: the switch arms for them and the $replace early "
+                       "return are covered by the theorems (c06_web_all, c06_dns_all) but not by the correspondence.",
+    },
 }
